@@ -242,6 +242,7 @@ func (x *Exec) call(st *State, f *Frame, c *ssa.CallCommon, instr ssa.Value, arg
 		return nil
 	}
 	sig := c.Signature()
+	x.checkSinks(st, f, c, args)
 	if c.IsInvoke() {
 		key := c.Method.FullName()
 		if res, ok := x.libInvoke(st, key, c, args); ok {
@@ -388,44 +389,34 @@ func (x *Exec) unknownCall(st *State, sig *types.Signature, name string) Val {
 }
 
 func (x *Exec) freshResults(st *State, sig *types.Signature, hint string) Val {
+	return x.freshResultsOpt(st, sig, hint, true)
+}
+
+func (x *Exec) freshResultsOpt(st *State, sig *types.Signature, hint string, allocated bool) Val {
 	rs := sig.Results()
 	switch rs.Len() {
 	case 0:
 		return nil
 	case 1:
 		v := st.freshVal(rs.At(0).Type(), hint)
-		st.assumeAllocated(v)
+		if allocated {
+			st.assumeAllocated(v)
+		}
 		return v
 	}
 	var tv TupleV
 	for i := 0; i < rs.Len(); i++ {
 		tv.E = append(tv.E, st.freshVal(rs.At(i).Type(), fmt.Sprintf("%s_%d", hint, i)))
 	}
-	st.assumeAllocated(tv)
+	if allocated {
+		st.assumeAllocated(tv)
+	}
 	return tv
 }
 
 // dynCall: call through a function value the engine knows nothing about.
 func (x *Exec) dynCall(st *State, f *Frame, c *ssa.CallCommon, args []Val, fnv Val) Val {
 	name := callSiteName(c)
-	// a sink declared in the root contract?
-	if x.con != nil {
-		for _, cl := range x.con.Clauses {
-			if cl.Kind == "sink" && lastComp(cl.Sink) == name {
-				env := x.env0.derive(st)
-				env.frame = st.stack[0]
-				for i, a := range args {
-					env.vars[fmt.Sprintf("$arg%d", i)] = TV{a, c.Args[i].Type()}
-				}
-				g := env.evalBool(cl.E)
-				cn := cl.Name
-				if cn == "" {
-					cn = name
-				}
-				x.emit(st, "sink", cn, cl.Text, cl.Props, g)
-			}
-		}
-	}
 	if con := x.eng.dynContract(x.root, name); con != nil {
 		return x.applyContract(st, f, con, c.Signature(), args, c)
 	}
@@ -573,7 +564,13 @@ func (x *Exec) applyContract(st *State, f *Frame, con *Contract, sig *types.Sign
 	if con.PureFn != "" {
 		res = x.pureResult(st, con, sig, args)
 	} else {
-		res = x.freshResults(st, sig, "r_"+con.FnName)
+		hasFresh := false
+		for _, cl := range con.Clauses {
+			if cl.Kind == "fresh" {
+				hasFresh = true
+			}
+		}
+		res = x.freshResultsOpt(st, sig, "r_"+con.FnName, !hasFresh)
 	}
 	env.old = before
 	x.bindResults(env, con, sig, res)
@@ -581,13 +578,16 @@ func (x *Exec) applyContract(st *State, f *Frame, con *Contract, sig *types.Sign
 		if cl.Kind == "fresh" {
 			tv := env.eval(cl.E)
 			r := env.refOf(tv)
-			st.assume(Cmp(">", r, IntLit(0)))
-			st.assume(Not(Term{fmt.Sprintf("(select %s %s)", st.alloc.Name, r.S), SBool}))
+			st.assume(Cmp(">=", r, IntLit(0)))
+			st.assume(Or(Eq(r, IntLit(0)), Not(Term{fmt.Sprintf("(select %s %s)", st.alloc.Name, r.S), SBool})))
 			n := newHeapConst("alloc", []Sort{SInt}, SBool, "al")
 			st.asserts = append(st.asserts, fmt.Sprintf("(= %s (store %s %s true))", n.Name, st.alloc.Name, r.S))
 			st.alloc = n
 			st.localRefs = append(st.localRefs, r)
 		}
+	}
+	if res != nil {
+		st.assumeAllocated(res) // after `fresh` results have been added to the allocation set
 	}
 	for _, cl := range con.Clauses {
 		if cl.Kind == "ensures" {
@@ -745,6 +745,12 @@ func (x *Exec) targetLocs(env *Env, m *Expr) []FrameLoc {
 			fam := mapFam(mt.Key(), mt.Elem())
 			r := tv.V.(Sc).T
 			return []FrameLoc{{FamPrefix: "MD|" + fam, Exact: true, Idx: []Term{r}}, {FamPrefix: "MV|" + fam + "|", Idx: []Term{r}}}
+		case "hdrmap":
+			// the rows of a map[string][]string (http.Header, url.Values) given by reference
+			tv := env.eval(m.Args[0])
+			r := env.refOf(tv)
+			fam := mapFam(types.Typ[types.String], strSliceT)
+			return []FrameLoc{{FamPrefix: "MD|" + fam, Exact: true, Idx: []Term{r}}, {FamPrefix: "MV|" + fam + "|", Idx: []Term{r}}}
 		case "deref":
 			tv := env.eval(m.Args[0])
 			pv, ok := tv.V.(PtrV)
@@ -819,8 +825,10 @@ func (x *Exec) materialise(st *State, loc FrameLoc) {
 		return
 	}
 	if !strings.HasPrefix(p, "H|") && !strings.HasPrefix(p, "C|") && !strings.HasPrefix(p, "E|") && !strings.HasPrefix(p, "G|") {
-		if strings.HasPrefix(p, "MD|") || strings.HasPrefix(p, "MV|") {
-			x.eng.materialiseMap(st, p)
+		if strings.HasPrefix(p, "MD|string>slice") || strings.HasPrefix(p, "MV|string>slice") {
+			st.heap("MD|string>slice", []Sort{SInt, SStr}, SBool)
+			st.heap("MV|string>slice|#arr", []Sort{SInt, SStr}, SInt)
+			st.heap("MV|string>slice|#len", []Sort{SInt, SStr}, SInt)
 		}
 		return
 	}
@@ -1125,4 +1133,37 @@ func (x *Exec) dynMode(f *Frame, c *ssa.CallCommon, name string) string {
 		}
 	}
 	return ""
+}
+
+// checkSinks: a call the root contract declares as a sink must satisfy the sink's precondition.
+// Sinks are matched by call-site name (method / function / function-value name) in the root
+// function and in closures and callees inlined into it.
+func (x *Exec) checkSinks(st *State, f *Frame, c *ssa.CallCommon, args []Val) {
+	if x.con == nil || x.dry != nil {
+		return
+	}
+	name := callSiteName(c)
+	for _, cl := range x.con.Clauses {
+		if cl.Kind != "sink" || lastComp(cl.Sink) != name {
+			continue
+		}
+		env := x.env0.derive(st)
+		env.frame = st.stack[0]
+		k := 0
+		if c.IsInvoke() {
+			env.vars["$recv"] = TV{args[0], c.Value.Type()}
+			k = 1
+		}
+		for i := range c.Args {
+			if k+i < len(args) {
+				env.vars[fmt.Sprintf("$arg%d", i)] = TV{args[k+i], c.Args[i].Type()}
+			}
+		}
+		g := env.evalBool(cl.E)
+		cn := cl.Name
+		if cn == "" {
+			cn = name
+		}
+		x.emit(st, "sink", cn, cl.Text, cl.Props, g)
+	}
 }
